@@ -52,7 +52,7 @@ class PrefixCtor(Contract):
     already existed), or ValueError and no registry changed (C19)."""
     qual = "measured.Prefix"
     ctor = True
-    props = ("C02", "C11", "C19")
+    props = ("C02", "C11", "C19", "C20")
     inv = ("I_P", "I_RP")
     modifies = ("new:Prefix", "Prefix._known", "Prefix._by_name", "Prefix._by_symbol", "Prefix.name", "Prefix.symbol")
     types = {"base": [("int",)], "exponent": [("int",), ("float",), ("dec",)], "name": [("none",), ("str",)], "symbol": [("none",), ("str",)]}
